@@ -7,6 +7,8 @@ use; each theorem is the round trip `generate → abstract writer → parseRoot`
                        nillable classes; `xsi:nil`)
 * `bind_generate_F3` : F2 + `tokens` (token lists in element, attribute and text vars)
 * `bind_generate_F4` : F3 + `wrapper` (wrapped list elements)
+* `bind_generate_F5` : F4 + `sequence` groups (every interleaving `next_value` rolls out is read back:
+                       the parser binds by name, so the instances need not have lists of equal length)
 * `bind_generate_FN` : any subset of these features
 
 The value-level exclusions of `FN.valOK` that are genuine defects of the code have machine-checked
@@ -49,6 +51,15 @@ theorem bind_generate_F4 (e : BEnv) (Γ : Ctx) (cfg : SerCfg) (pcfg : ParserConf
     ∃ evs t, generate e Γ cfg v = .ok evs ∧ eventsTree (isDatatype Γ) evs = .ok t ∧
       parseRoot e Γ pcfg c t = .ok (v, 0) :=
   bind_generate_FN featF4 e Γ cfg pcfg c v hΓ hv
+
+def featF5 : Feat := { nillable := true, tokens := true, wrapper := true, sequence := true }
+
+/-- **C01, fragment F5** = F4 + `sequence` groups. -/
+theorem bind_generate_F5 (e : BEnv) (Γ : Ctx) (cfg : SerCfg) (pcfg : ParserConfig) (c : ClassId) (v : Val)
+    (hΓ : ctxOK featF5 Γ = true) (hv : valOK e Γ c v = true) :
+    ∃ evs t, generate e Γ cfg v = .ok evs ∧ eventsTree (isDatatype Γ) evs = .ok t ∧
+      parseRoot e Γ pcfg c t = .ok (v, 0) :=
+  bind_generate_FN featF5 e Γ cfg pcfg c v hΓ hv
 
 /-! #### a concrete universe and instance using all three features -/
 
@@ -180,5 +191,49 @@ theorem nillable_class_empty_tokens_witness :
     parseRoot e0 Γw8 {} (s "Root") (treeOf Γw8 w8) =
       .ok (.obj (s "Root") [(s "c", .list [.obj (s "Leaf") [(s "v", .none)]])], 0) :=
   ⟨by decide, by decide, rfl, rfl, rfl⟩
+
+
+/-! #### `sequence` groups -/
+
+def sA : XmlVar := { mkVarN 1 "a" "a" .element [.prim .int] (listElement := true) (default := .listFactory) with
+  sequence := some 1 }
+def sM : XmlVar := mkVarN 2 "m" "m" .element [.prim .str]
+def sB : XmlVar := { mkVarN 3 "b" "b" .element [.cls (s "Leaf")] (clazz := some (s "Leaf")) (listElement := true)
+  (default := .listFactory) (nillable := true) with sequence := some 1 }
+def sT : XmlVar := mkVarN 4 "t" "t" .element [.prim .int] (default := .listFactory) (tokens := true)
+def sRoot : ClassInfo := classOf "Root" (mkMeta "Root" "Root" none [sA, sM, sB, sT] [])
+  [⟨s "a", true, some (.list [])⟩, ⟨s "m", true, some .none⟩, ⟨s "b", true, some (.list [])⟩,
+   ⟨s "t", true, some (.list [])⟩]
+
+/-- `a` and `b` form a `sequence` group, `m` lies between them and is rolled along, the token list
+`t` comes after the group -/
+def Γ5 : Ctx := twoClasses w5Leaf sRoot
+def v5 : Val := .obj (s "Root")
+  [(s "a", .list [.prim (.int 1), .prim (.int 2), .prim (.int 3)]), (s "m", .prim (.str (s "mid"))),
+   (s "b", .list [.obj (s "Leaf") [(s "z", .prim (.str (s "x")))], .none]),
+   (s "t", .list [.prim (.int 7), .prim (.int 8)])]
+
+example : ctxOK featF5 Γ5 = true ∧ ctxOK featF4 Γ5 = false ∧ valOK e0 Γ5 (s "Root") v5 = true := by decide
+
+/-- the interleaving the abstract writer sees: `a m b a b a t` -/
+example : (match eventsTree (isDatatype Γ5) (evsOf Γ5 v5) with
+    | .ok (.node _ _ _ _ kids _) => kids.map (fun k => match k with | .node q _ _ _ _ _ => q)
+    | _ => []) = [s "a", s "m", s "b", s "a", s "b", s "a", s "t"] := by rfl
+
+example : ∃ evs t, generate e0 Γ5 {} v5 = .ok evs ∧ eventsTree (isDatatype Γ5) evs = .ok t ∧
+    parseRoot e0 Γ5 {} (s "Root") t = .ok (v5, 0) :=
+  bind_generate_F5 e0 Γ5 {} {} (s "Root") v5 (by decide) (by decide)
+
+/-- witness 9: a token-list var inside a `sequence` group -/
+def w9Root : ClassInfo := classOf "Root" (mkMeta "Root" "Root" none
+  [{ sT with index := 1, sequence := some 1 }, { sA with index := 2 }] [])
+  [⟨s "t", true, some (.list [])⟩, ⟨s "a", true, some (.list [])⟩]
+def Γw9 : Ctx := { classes := [w9Root], xsiIndex := [], datatypes := [] }
+def w9 : Val := .obj (s "Root") [(s "t", .list [.prim (.int 1), .prim (.int 2)]), (s "a", .list [.prim (.int 3)])]
+
+/-- the roll hands the tokens over one by one and `convert_tokens` evaluates `value[0]` on an `int` -/
+theorem tokens_in_sequence_witness :
+    ctxOK featF5 Γw9 = false ∧ generate e0 Γw9 {} w9 = .error (.leaked "TypeError") :=
+  ⟨by decide, rfl⟩
 
 end Props.C01
